@@ -12,7 +12,7 @@ PAYLOAD = {"kg": [2], "mg": [3], "kmg": [3], "oligo": [3], "covrow": [6], "cgr":
 BASE_TRUSTED = [
     "Coq 8.16.1 kernel incl. vm_compute (no native_compute, no kernel flags, full .vo build)",
     "tools/translate.py (data patterns only) producing Gen/Generated.v from /repo's working tree",
-    "Extraction with ExtrOcamlBasic only (its Extract Inductive bool/option/unit/list/prod/sumbool/sumor and Extract Inlined Constant andb/orb; none of our own); OCaml 4.13.1; ocaml/driver.ml (I/O glue only: parsing and rendering are extracted Coq)",
+    "Extraction with ExtrOcamlBasic only (its Extract Inductive bool/option/unit/list/prod/sumbool/sumor and Extract Inlined Constant andb/orb) plus one directive of our own, `Extract Constant rev => List.rev` (Coq's quadratic list reversal replaced by OCaml's linear one); OCaml 4.13.1; ocaml/driver.ml (I/O glue only: parsing and rendering are extracted Coq)",
     "in-Coq vm_compute re-evaluation of a sample of the cases cross-checks the extracted code",
     "Rust harness harness/src/*.rs, the generators in tools/kt/props.py, the comparison in ./check",
 ]
@@ -50,6 +50,8 @@ def gen_C01(r, tier):
         k = r.pick([1, 15, 16, 17, 30, 31]) if r.below(4) == 0 else 1 + r.below(31)
         s = gen_seq(r, klen(r, k))
         cases.append("kg %d %s" % (k, hx(s)))
+    for L in ([65536, 70001] if tier == "quick" else LONG_LENGTHS):
+        cases.append("kg %d %s" % (r.pick([1, 16, 31]), hx(long_record(r, L, amb=r.pick([0, 4])))))
     return cases
 
 
@@ -119,6 +121,8 @@ def gen_C03(r, tier):
     cases = []
     for k in range(1, kmax + 1):
         cases.append("posmap %d" % k); cases.append("header %d" % k)
+    for k in (6, 4, 5, 3, 2, 1, 3, 7, 5):    # repeated calls in one process (one shard), k going up and down
+        cases.append("posmap %d" % k)
     # the header line of the CLI for every k it accepts and every delimiter preset, both writers
     for k in range(3, 8):
         for preset in ("csv", "tsv", "spc", None):
@@ -223,6 +227,11 @@ def gen_C04(r, tier):
         norm = r.below(2)
         for v in (s, rc_bytes(s), to_lower(s), t_to_u(s), t_to_u(to_lower(s))):
             cases.append("oligo %d %d %s" % (k, norm, hx(v)))
+    for L in ([65536, 70000, 131075] if tier == "quick" else LONG_LENGTHS):
+        k = r.pick([1, 2, 3])
+        rec = long_record(r, L + r.pick([0, k - 1, k]), amb=r.pick([0, 3]))
+        cases.append("oligo %d %d %s" % (k, r.below(2), hx(rec)))
+        cases.append("ofile %d 1 0 20 %d 4294967296 %s fa 60 %s" % (k, r.pick([1, 4]), r.pick(["mmap", "batch"]), hxlist([b"ACGT", rec, b"AC"])))
     # the printed row through the file API (both writers): homopolymers (frequency exactly 1), single windows, ties
     m = {"quick": 150, "thorough": 2500}[tier]
     for _ in range(m):
@@ -242,13 +251,20 @@ def gen_C04(r, tier):
     return cases
 
 def extra_C04(cases, impl):
-    """invariance of the row under reverse complement, case change and U for T, on the implementation itself"""
+    """invariance of the row under reverse complement, case change and U for T, on the implementation itself
+    (groups of five consecutive oligo cases: a record, its reverse complement, lower case, U for T, both)"""
     bad = []
-    for i in range(0, len(cases) - 4, 5):
-        if not cases[i].startswith("oligo "): continue
-        for j, what in ((1, "reverse complement"), (2, "lower case"), (3, "U for T"), (4, "lower case with u for t")):
-            if impl[i + j] != impl[i]:
-                bad.append((cases[i + j], "row changes under %s of %s" % (what, cases[i].split(" ")[3][:60])))
+    i = 0
+    while i + 4 < len(cases):
+        p = [c.split(" ") for c in cases[i:i + 5]]
+        if all(q[0] == "oligo" and q[1:3] == p[0][1:3] for q in p):
+            base = unhx(p[0][3])
+            if [unhx(q[3]) for q in p[1:]] == [rc_bytes(base), to_lower(base), t_to_u(base), t_to_u(to_lower(base))]:
+                for j, what in ((1, "reverse complement"), (2, "lower case"), (3, "U for T"), (4, "lower case with u for t")):
+                    if impl[i + j] != impl[i]:
+                        bad.append((cases[i + j], "row changes under %s of %s" % (what, p[0][3][:60])))
+                i += 5; continue
+        i += 1
     return bad
 
 
@@ -273,7 +289,8 @@ def gen_C08_rows(r, n):
     cases = []
     for _ in range(n):
         k = r.pick([1, 2, 3, 5, 7, 11, 15, 21, 31])
-        bs = r.pick([1, 2, 5, 16, 1000]); bc = r.pick([1, 2, 5, 16, 40])
+        bs = r.pick([1, 2, 5, 16, 1000]) if r.below(2) else r.pick([49, 98, 103, 107, 161, 187, 196, 197, 3, 7, 1 + r.below(250)])
+        bc = r.pick([1, 2, 5, 16, 40])
         s = gen_record(r, k, 200)
         keys = sorted(set(canon_kmers(s, k)))
         r.shuffle(keys)
@@ -368,6 +385,13 @@ def gen_records(r, k, nmax=40, maxlen=120, container=None):
 
 def pick_threads(r): return r.pick([0, 1, 2, 3, 4, 7, 8, 16, 1 + r.below(16)])
 
+def long_record(r, n, amb=0):
+    """a record longer than any internal block size (64 Ki bases and its multiples are aimed at on purpose)"""
+    s = bytearray(r.choices(NUC, k=n))
+    for _ in range(amb): s[r.below(n)] = ord("N")
+    return bytes(s)
+LONG_LENGTHS = [65535, 65536, 65537, 70000, 131072, 131075, 200000]
+
 def many_records(r, n, lo=1, hi=12):
     """hundreds to thousands of short, pairwise different records: a writer that formats or flushes in blocks,
     or derives a row position from completion order, shows only on batches larger than its block size"""
@@ -440,6 +464,8 @@ def gen_C07(r, tier):
         # ceilings from a few bases per chunk (dozens of chunks and partitions) to a single chunk
         memf = r.pick(["6", "1", "0.000001", "0.0000001", "0.00000005", "0.00000001"])
         cases.append("ctr %d %d %s %d %s %s" % (k, pick_threads(r), memf, r.below(2), cont, hxlist(recs)))
+    for L in ([70000] if tier == "quick" else [65536, 70000, 200000]):
+        cases.append("ctr %d %d 6 0 fa %s" % (r.pick([3, 11]), r.pick([1, 4, 16]), hxlist([long_record(r, L, amb=2), b"ACGTACGTACGTAA"])))
     # controlled schedules through the hooks: CHECK / TAKE / INC / ADD / EXIT traces and the content of every chunk pass
     def csched_case(W, recs, k, limit, prefix):
         kmers = sum(max(0, len(x) - k + 1) for x in recs)
@@ -496,6 +522,12 @@ def gen_C10(r, tier):
         t = pick_threads(r)
         cases.append("s2m %d %d %d %s %s" % (w, m, t, cont, hxlist(recs)))
         cases.append("m2s %d %d %d %s %s" % (w, m, pick_threads(r), cont, hxlist(recs)))
+    # records with thousands of runs each (a writer that hands a line over in pieces shows only there)
+    for _ in range(1 if n <= 400 else 4):
+        recs = [long_record(r, 14000 + r.below(1000)) for _ in range(2)] + many_records(r, 10, 20, 60)
+        t = r.pick([4, 8, 16])
+        cases.append("s2m 8 5 %d fa %s" % (t, hxlist(recs)))
+        cases.append("m2s 8 5 %d fa %s" % (t, hxlist(recs)))
     # controlled schedules through the hooks: TAKE / PUSH (m2s) or WRITE (s2m) / EXIT traces and the resulting lines
     def msched_case(mode, w, m, W, recs, prefix):
         steps = sum(2 + max(0, len(x)) for x in recs) + 4
@@ -572,6 +604,11 @@ def gen_C12_files(r, n):
         cont = r.pick(["fa", "faw", "fq", "fagz"])
         recs = gen_records(r, k, nmax=20, maxlen=80, container=cont)
         cases.append("ocgrfile %d %d %d %d %d %s %s" % (k, S, r.below(2), pick_threads(r), r.pick([1, 50, 1000, 4294967296]), cont, hxlist(recs)))
+    for L in ([65536, 70000, 200000] if n <= 400 else LONG_LENGTHS):
+        k = r.pick([1, 2])
+        rec = long_record(r, L + r.pick([0, k - 1, k]), amb=r.pick([0, 2]))
+        cases.append("ocgrfile %d 4 %d %d 4294967296 fa %s" % (k, r.below(2), r.pick([1, 4]), hxlist([b"ACGTAC", rec])))
+        cases.append("ocgr %d 4 %d %s" % (k, r.below(2), hx(rec)))
     for nrec in ([300, 700, 1500] if n <= 400 else [300, 700, 1500, 3000, 5000, 2000]):
         cases.append("ocgrfile 1 4 %d %d %d fa %s" % (r.below(2), r.pick([2, 3, 8, 16]), r.pick([4294967296, 4294967296, 2000]), hxlist(many_records(r, nrec))))
     return cases
@@ -592,6 +629,23 @@ def gen_C06(r, tier):
     for bad in ("x.txt", "x.fa.bz2", "x.fagz", "xfa", "x.fq.gzip", "x.FA"):
         cases.append("read %s none %s _" % (bad, hx(b">a\nAC\n")))
     cases.append("read x.fa.gz.gz fa %s %s" % (hx(b">a\nAC\n"), hx(b"a") + ":" + hx(b"AC")))     # trim_end_matches strips repeatedly
+    # headers placed exactly on (and next to) multiples of the 8 KiB block size of std's BufReader
+    for blk in ([8192, 16384] if tier == "quick" else [8192, 16384, 24576, 65536]):
+        for delta in (-1, 0, 1):
+            for eol in (b"\n", b"\r\n"):
+                recs = []; text = bytearray()
+                target = blk + delta
+                for i in range(4):
+                    rid = ("r%d" % i).encode()
+                    hdr = b">" + rid + eol
+                    if i == 1:      # pad record 1 so that the header of record 2 starts at `target`
+                        L = target - len(text) - len(hdr) - len(eol)
+                    else:
+                        L = 1 + r.below(200)
+                    seq = bytes(r.choices(SEQCHARS, k=max(L, 1)))
+                    recs.append((rid, seq)); text += hdr + seq + eol
+                exp = ",".join(hx(i_) + ":" + hx(s_) for i_, s_ in recs)
+                cases.append("read x.fa fa %s %s" % (hx(bytes(text)), exp))
     for _ in range(n):
         fq = r.below(3) == 0
         nrec = r.pick([0, 1, 2]) if r.below(6) == 0 else r.below(25)
@@ -944,6 +998,9 @@ def gen_C13(r, tier):
     else:
         recs = [bytes(r.choices(NUC, k=r.below(30))) for _ in range(1500)]
         cases.append("py:obatch 2 1 %s" % hxlist(recs))
+        cases.append("py:obatch 2 0 %s" % hxlist(recs[:700]))
+    for k in (6, 4, 5, 3, 2, 1, 3):          # computers built one after another in one interpreter, k going down
+        cases.append("py:header %d" % k); cases.append("py:oligo %d 0 %s" % (k, hx(b"ACGTTGCAAGGCTTAACC")))
     return cases
 
 def to_spec_py(case, out):
@@ -968,7 +1025,7 @@ PROPS = {
                 nontrivial=lambda c, o: bool(o) and not o.startswith(("PANIC", "CRASH", "NOT-RUN")) and any(x != "0" for x in o.split(",")),
                 assumptions=["bytes 0x00-0x03 are never generated", "counts stay below 2^53 (f64 increments exact)"]),
     "C08": dict(gen=gen_C08, needs=["harness"],
-                rule="record level: seeded records x k in {1,2,3,5,7,11,15,21,31} x bin sizes {1,2,5,16,1000} x bin counts {1,2,5,16,40} x raw/normalised, count tables over k-mers that occur in the record with boundary multiplicities q*s-1, q*s, absent k-mers, 10^4*s and u32::MAX; non-trivial = some entry non-zero",
+                rule="record level: seeded records x k in {1,2,3,5,7,11,15,21,31} x bin sizes {1,2,5,16,1000, 49,98,103,107,161,187,196,197 (reciprocal not exact in binary64), random 1..250} x bin counts {1,2,5,16,40} x raw/normalised, count tables over k-mers that occur in the record with boundary multiplicities q*s-1, q*s, absent k-mers, 10^4*s and u32::MAX; non-trivial = some entry non-zero",
                 nontrivial=lambda c, o: bool(o) and not o.startswith(("PANIC", "CRASH", "NOT-RUN")) and any(x != "0" for x in o.split(",")),
                 assumptions=["(count as f64 / bin_size as f64).floor() equals integer division for count < 2^32, bin_size < 2^32 (modelled as N division; boundary multiplicities generated on purpose)"]),
     "C11": dict(gen=gen_C11, needs=["harness"], to_spec=lambda c, o: to_spec_cgrfile(c, to_spec_cgr(c, o)),
@@ -982,7 +1039,7 @@ PROPS = {
                 assumptions=["Mutex-protected reader and one write_at per row are atomic steps (below hook granularity is not modelled)",
                              "rayon's par_iter().map().collect() preserves order (batch writer)"]),
     "C06": dict(gen=gen_C06, needs=["harness"], sample_limit={"quick": 60, "thorough": 200}, sample_maxlen=1500,
-                rule="seeded well-formed record lists (ids over a wide printable alphabet, optional space/tab descriptions, lengths 0..3000, empty FASTA records) printed as FASTA (wrap widths none,1,7,60,80,random; LF or CRLF; with or without final terminator; optional empty sequence line) or FASTQ (single-line or wrapped, '+' line with or without id, quality lines that may start with @ or +), plain or gzip split at random byte positions into 1..6 members (some stored, some deflated, optional empty final member); every documented suffix form with and without .gz and names that must not be recognised; the implementation's records, numbering and statistics are compared with the line-parser model and with the generating list itself; non-trivial = at least one record",
+                rule="files whose record headers start exactly on, one before and one after multiples of 8192 bytes (the BufReader block size), LF and CRLF; then seeded well-formed record lists (ids over a wide printable alphabet, optional space/tab descriptions, lengths 0..3000, empty FASTA records) printed as FASTA (wrap widths none,1,7,60,80,random; LF or CRLF; with or without final terminator; optional empty sequence line) or FASTQ (single-line or wrapped, '+' line with or without id, quality lines that may start with @ or +), plain or gzip split at random byte positions into 1..6 members (some stored, some deflated, optional empty final member); every documented suffix form with and without .gz and names that must not be recognised; the implementation's records, numbering and statistics are compared with the line-parser model and with the generating list itself; non-trivial = at least one record",
                 nontrivial=lambda c, o: "|" in o and o.split("|")[1] != "",
                 assumptions=["the DEFLATE codec itself is not modelled (only the member structure)", "bio 2.0.3's parsers are third-party code, modelled from their source and validated here",
                              "non-UTF-8 input is outside 'well-formed' and never generated"]),
